@@ -1,4 +1,5 @@
 import Cirbo.Proofs.Passes
+import Cirbo.Proofs.PassTotal
 import Cirbo.Proofs.PassPipe
 /-!
 # C03 — Simplification passes preserve the function, the interface and their argument
@@ -15,7 +16,8 @@ import Cirbo.Proofs.PassPipe
 -- OBLIGATION: c03_equal_rows_mean_equal_functions
 -- OBLIGATION: c03_same_function
 -- OBLIGATION: c03_never_more_gates
--- PARTIAL: function, interface and invariant preservation is proved for all four passes (RemoveRedundantGates both modes, MergeUnaryOperators, MergeDuplicateGates, MergeEquivalentGates), for every pipeline / pipe-operator composition / apply_transformers list and for cleanup (light and heavy), on circuits satisfying the C02 invariant with accepted arities. "Never more gates" is proved for every pass, pipeline and cleanup (c03_never_more_gates). "The argument is not modified" is decided by the correspondence harness (Lean values are immutable). Theorems are partial-correctness (whenever the pass returns).
+-- OBLIGATION: c03_passes_return
+-- PARTIAL: function, interface and invariant preservation is proved for all four passes (RemoveRedundantGates both modes, MergeUnaryOperators, MergeDuplicateGates, MergeEquivalentGates), for every pipeline / pipe-operator composition / apply_transformers list and for cleanup (light and heavy), on circuits satisfying the C02 invariant with accepted arities. "Never more gates" is proved for every pass, pipeline and cleanup (c03_never_more_gates). "The argument is not modified" is decided by the correspondence harness (Lean values are immutable). Every pass, pipeline and cleanup returns on such circuits (c03_passes_return), so the theorems speak about every call.
 -/
 namespace Cirbo
 
@@ -117,6 +119,14 @@ theorem c03_never_more_gates (ts : List Tr) {c c' : Circuit} (hw : WFS c) (har :
     (h : applyTransformers c ts = .ok c') : c'.gates.length ≤ c.gates.length :=
   (pipeline_preserves ts hw har h).size
 
+/-- every pass, every pipeline (nested compositions, implied removals) and cleanup **returns** on a
+well-formed circuit with accepted arities: no exception, no divergence -/
+theorem c03_passes_return {c : Circuit} (hw : WFS c) (har : ArOK c) :
+    (∀ a, ∃ c', rrg a c = .ok c') ∧ (∃ c', muo c = .ok c') ∧ (∃ c', mdg c = .ok c') ∧ (∃ c', meg c = .ok c') ∧
+    (∀ ts, ∃ c', applyTransformers c ts = .ok c') ∧ (∀ heavy, ∃ c', cleanup c heavy = .ok c') :=
+  ⟨fun _ => rrg_total hw, muo_total hw har, mdg_total hw, meg_total hw har,
+   fun ts => pipeline_total ts hw har, fun heavy => cleanup_total heavy hw har⟩
+
 #print axioms c03_rrg_preserves
 #print axioms c03_rrg_same_function
 #print axioms c03_rrg_keeps_inputs
@@ -129,5 +139,6 @@ theorem c03_never_more_gates (ts : List Tr) {c c' : Circuit} (hw : WFS c) (har :
 #print axioms c03_equal_rows_mean_equal_functions
 #print axioms c03_same_function
 #print axioms c03_never_more_gates
+#print axioms c03_passes_return
 
 end Cirbo
